@@ -195,6 +195,11 @@ class Sync:
                 pol = not pol
                 e = tu.kids(e)[0]
                 continue
+            if k == 'BinaryOperator' and e.get('opcode') in ('&&', '||'):
+                # terminator of the block that evaluates the *last* operand: the left operand was decided by an earlier
+                # block (short circuit), so on reaching this block the value of the whole expression is the right operand
+                e = tu.kids(e)[1]
+                continue
             if k == 'BinaryOperator' and e.get('opcode') in ('==', '!='):
                 a, b = tu.kids(e)
                 done = False
